@@ -56,6 +56,13 @@ func (m *expirationMap[_]) add(key, conflict uint64, expiration time.Time) {
 	m.Lock()
 	defer m.Unlock()
 
+	// An item can be applied after the bucket of its expiration time has already
+	// been swept. File it under the next bucket to be swept, otherwise it would
+	// never be reclaimed.
+	if bucketNum <= m.lastCleanedBucketNum {
+		bucketNum = m.lastCleanedBucketNum + 1
+	}
+
 	b, ok := m.buckets[bucketNum]
 	if !ok {
 		b = make(bucket)
@@ -84,6 +91,10 @@ func (m *expirationMap[_]) update(key, conflict uint64, oldExpTime, newExpTime t
 	}
 
 	newBucketNum := storageBucket(newExpTime)
+	if newBucketNum <= m.lastCleanedBucketNum {
+		// See add: keep the key reachable by the sweep.
+		newBucketNum = m.lastCleanedBucketNum + 1
+	}
 	newBucket, ok := m.buckets[newBucketNum]
 	if !ok {
 		newBucket = make(bucket)
